@@ -1,6 +1,6 @@
 (* Uniform executable entry point of the model for the correspondence check:
    run_case tag args = the observable outputs the implementation must produce for the same case. *)
-From DDSV Require Import base.Machine model.View model.Layout.
+From DDSV Require Import base.Machine model.View model.Layout model.DecoderSM.
 
 Local Open Scope Z_scope.
 
@@ -83,10 +83,52 @@ Definition run_c02 (a : list Z) : list Z :=
   | _ => [-99]
   end.
 
+(* ---- C08: [dx10; w; h; dp; d; mips; cube10; dim; array; caps2; pk; pa; pb; pc; pd; (kind; flag)*] *)
+Definition dec_err_code (e : dec_err) : Z :=
+  match e with ENoMoreSurfaces => 1 | EUnexpectedSurfaceSize => 2 | ECannotSkipMipmapsInVolume => 3
+             | ENotACubeMap => 4 | ERectOutOfBounds => 5 | EIo => 6 end.
+Definition mk_op (k f : Z) : dec_op :=
+  let b := negb (f =? 0) in
+  if k =? 0 then OpRead b else if k =? 1 then OpRect b else if k =? 2 then OpSkip else if k =? 3 then OpSkipMips
+  else if k =? 4 then OpRewindPrev else if k =? 5 then OpRewindStart else OpCube b.
+Fixpoint mk_ops (l : list Z) : list dec_op :=
+  match l with k :: f :: r => mk_op k f :: mk_ops r | _ => [] end.
+Definition out_dec (d : decoder) : list Z :=
+  match iter_current (d_it d) with
+  | None => [-2]
+  | Some None => [0; 0; 0; 0; 0; nz (d_pos d)]
+  | Some (Some si) => [1; nz (si_w si); nz (si_h si); nz (si_len si); bz (negb (si_level si =? 0)%N); nz (d_pos d)]
+  end.
+Definition out_cells (c : list (N * N * N)) : list Z :=
+  nz (N.of_nat (length c)) :: flat_map (fun t => [nz (fst (fst t)); nz (snd (fst t)); nz (snd t)]) c.
+(* the comparison stops after the first I/O error or panic (the documentation leaves the state open) *)
+Fixpoint run_ops (d : decoder) (ops : list dec_op) : list Z :=
+  match ops with
+  | [] => []
+  | op :: rest =>
+      let cube := match op with OpCube _ => true | _ => false end in
+      match dec_step d op with
+      | (DOk d', cells) => (0 :: out_dec d') ++ (if cube then out_cells cells else []) ++ run_ops d' rest
+      | (DErr EIo d', cells) => [6]
+      | (DErr e d', cells) => (dec_err_code e :: out_dec d') ++ (if cube then out_cells cells else []) ++ run_ops d' rest
+      | (DPanic, _) => [-2]
+      end
+  end.
+Definition run_c08 (a : list Z) : list Z :=
+  match a with
+  | dx10 :: w :: h :: dp :: d :: mips :: cube10 :: dim :: array :: caps2 :: pk :: pa :: pb :: pc :: pd :: ops =>
+    match from_header_with (mk_lheader dx10 w h dp d mips cube10 dim array caps2) (mk_pixel_info pk pa pb pc pd) with
+    | LErr e => [0; err_code e]
+    | LOk L => (1 :: out_dec (dec_init L)) ++ run_ops (dec_init L) (mk_ops ops)
+    end
+  | _ => [-99]
+  end.
+
 Definition run_case (tag : Z) (args : list Z) : list Z :=
   match tag with
   | 20 => run_c20 args
   | 2 => run_c02 args
+  | 8 => run_c08 args
   | _ => [-98]
   end.
 
